@@ -59,6 +59,10 @@ PROPS = {
         "mc": L0_QUICK + L0_THOROUGH,
         "drivers": [drv("text", "debug"), drv("text", "release", tiers=T)],
     },
+    "C05": {
+        "mc": L0_QUICK + L0_THOROUGH,
+        "drivers": [drv("modpow", "debug"), drv("modpow", "release", tiers=T)],
+    },
 }
 
 # which properties own the value rule of an operation (a BAD event is a violation only for an owner)
@@ -74,6 +78,7 @@ own("C01", "add sub checked_add checked_sub add_sc sub_sc rsub_sc")
 own("C02", "mul checked_mul mul_sc")
 own("C03", "div rem div_rem checked_div div_floor mod_floor div_mod_floor div_ceil div_euclid rem_euclid div_rem_euclid checked_div_euclid checked_rem_euclid checked_div_rem_euclid is_multiple_of")
 own("C07", "bitand bitor bitxor not shl shr bit set_bit bits trailing_zeros trailing_ones count_ones")
+own("C05", "modpow modinv")
 own("C06", "to_str_radix fmt to_radix_le to_radix_be parse from_radix_le from_radix_be")
 own("C09", "from_bytes_le from_bytes_be new_u32 from_signed_bytes_le from_signed_bytes_be to_bytes_le to_bytes_be to_u32_digits to_u64_digits to_signed_bytes_le to_signed_bytes_be iter_collect iter")
 own("C19", "from_biguint clone")
